@@ -25,12 +25,14 @@ from harness import core, tlc
 from harness.tlaparse import iter_dump_states
 
 KNOWN_IDS = {"C16-stale-negative-memo": "negmemo", "C16-mbox-member-as-folder": "mboxguard",
-             "C16-lexical-dotdot": "lexdotdot"}
+             "C16-lexical-dotdot": "lexdotdot", "C16-cp437-link-dirname": "cp437link"}
 
 MC_CFG = """SPECIFICATION Spec
 CONSTANTS
   StaleNegativeMemo = %(negmemo)s
   GuardIsInstance = %(guard)s
+  RawNames = {%(raw)s}
+  LinkDirnameUntranscoded = %(untrans)s
   FullLen = %(full_len)d
   CoreLen = %(core_len)d
   UnivFull <- %(univ_full)s
@@ -48,6 +50,8 @@ TR_CFG = """SPECIFICATION TSpec
 CONSTANTS
   StaleNegativeMemo = %(negmemo)s
   GuardIsInstance = %(guard)s
+  RawNames = {}
+  LinkDirnameUntranscoded = FALSE
 CONSTRAINT Record
 POSTCONDITION Post
 CHECK_DEADLOCK FALSE
@@ -55,10 +59,13 @@ CHECK_DEADLOCK FALSE
 ALL_PROTOS = ["G", "GI", "GP", "GD", "H", "W", "GEM", "SP"]
 TIERS = {
     "quick": dict(full_len=2, core_len=3, univ_full="UFullQ", univ_core="UCoreQ", fixed=["G", "GI"],
-                  rotate=["GP", "GD", "H", "W", "GEM", "SP"], stride=1, extra_mc=None, names=["ascii"], name_stride=0),
+                  rotate=["GP", "GD", "H", "W", "GEM", "SP"], stride=1, extra_mc=None,
+                  raw_mc=dict(full_len=2, core_len=1, univ_full="UFullQ", univ_core="UCoreQ", raw='"a", "d"'),
+                  names=["ascii", "utf8", "cp437"], name_stride=0),
     "thorough": dict(full_len=3, core_len=4, univ_full="UFullQ", univ_core="UCoreT", fixed=["G", "GI"],
                      rotate=["GP", "GD", "H", "W", "GEM", "SP"], stride=3,
                      extra_mc=dict(full_len=1, core_len=5, univ_full="UFullQ", univ_core="UCoreT5"),
+                     raw_mc=dict(full_len=1, core_len=3, univ_full="UFullQ", univ_core="UCoreT", raw='"a", "d"'),
                      names=["ascii", "utf8", "cp437"], name_stride=7),
 }
 PLAIN_HANDLERS = """[url.HTMLURLHandler, gophermap.BuckGophermapHandler,
@@ -447,6 +454,7 @@ def _run_case(job):
     """job = (case_id, ms, selrecs, prune, protos, names).  Returns list of traces (dicts)."""
     cid, ms, selrecs, prune, protos, names, loc = job
     site = _SITE
+    hook0 = site.hook_calls
     site.build(ms, prune, names, loc)
     traces = [{"id": "%s#extract" % cid, "init": {"members": ms}, "events": [site.extract_event(ms, names)],
                "case": {"members": [mname(m) for m in ms], "ms": ms, "names": names, "loc": loc, "sel": "#extract", "prune": prune},
@@ -478,9 +486,12 @@ def _run_case(job):
         traces.append({"id": "%s#%s" % (cid, "/".join(s)), "init": {"members": ms}, "events": events,
                        "case": {"members": [mname(m) for m in ms], "ms": ms, "names": names, "loc": loc, "sel": "/" + "/".join(s),
                                 "selrec": sr, "prune": prune, "fw": sr["fw"], "dd": sr["dd"], "ro": sr["ro"],
-                                "mbox": sr["mb"]},
+                                "mbox": sr["mb"],
+                                "cp437_dirlink": names == "cp437" and any(
+                                    m["k"] == "l" and not m["dest"]["abs"] and any(c in NAME_MAPS["cp437"] for c in m["p"][:-1])
+                                    for m in ms)},
                        "extras": extras})
-    return traces, site.hook_calls
+    return traces, site.hook_calls - hook0
 
 
 def mname(m):
@@ -506,11 +517,13 @@ def _plain(v):
 def model_constants(chk):
     known = sorted(KNOWN_IDS[f.get("id")] for f in chk.known if f.get("id") in KNOWN_IDS)
     return dict(negmemo="TRUE" if "negmemo" in known else "FALSE", guard="TRUE" if "mboxguard" in known else "FALSE",
+                untrans="TRUE" if "cp437link" in known else "FALSE",
                 known=", ".join('"%s"' % k for k in known)), known
 
 
 def cases_from_model(t, consts, timeout):
-    cfg = MC_CFG % dict(consts, full_len=t["full_len"], core_len=t["core_len"], univ_full=t["univ_full"], univ_core=t["univ_core"])
+    cfg = MC_CFG % dict(consts, full_len=t["full_len"], core_len=t["core_len"], univ_full=t["univ_full"], univ_core=t["univ_core"],
+                        raw=t.get("raw", ""))
     res = tlc.check_model("MC_C16", "MC_C16_run.cfg", extra_files={"MC_C16_run.cfg": cfg}, dump=True, coverage=True,
                           timeout=timeout)
     cases = []
@@ -547,6 +560,13 @@ def main(chk, replay=None):
         have = {json.dumps(c[0], sort_keys=True) for c in cases}
         cases2 = [c for c in cases2 if json.dumps(c[0], sort_keys=True) not in have]
         cases += cases2[chk.seed % 11::11]
+    if t["raw_mc"] and not replay:            # the same model with raw non-ASCII names for a and d (cp437 reading)
+        res3, _c3 = cases_from_model(t["raw_mc"], consts, 3000)
+        if res3["inv_violations"]:
+            chk.model_violation("MC_C16(raw names)", sorted(set(res3["inv_violations"])), res3["out"][-3000:])
+        states += res3["distinct"]
+        generated += res3["generated"]
+        extra_cmd += " ; " + res3["cmd"]
     jobs = []
     if replay:
         with open(replay) as fp:
@@ -561,9 +581,9 @@ def main(chk, replay=None):
                 continue                     # model-checked; replayed only as a sample in this tier
             protos = t["fixed"] + ([t["rotate"][n % len(t["rotate"])]] if t["rotate"] else [])
             jobs.append(("c%05d" % n, ms, sels, prune, protos, "ascii", "y.zip" if n % 5 == 2 else ""))
-            for k, nm in enumerate(t["names"][1:]):
-                if t["name_stride"] and n % t["name_stride"] == k:
-                    jobs.append(("c%05d-%s" % (n, nm), ms, sels, prune, t["fixed"][:3], nm, ""))
+            for k, nm in enumerate(t["names"][1:]):     # the same archive with non-ASCII member names
+                if len(ms) <= 2 or (t["name_stride"] and n % t["name_stride"] == k):
+                    jobs.append(("c%05d-%s" % (n, nm), ms, sels, prune, t["fixed"][:2], nm, ""))
     # 2./3. replay into the real server, record traces
     global _BASE
     _BASE = tlc.new_scratch("c16")
